@@ -683,7 +683,7 @@ func TestVerif_C25_Service(t *testing.T) {
 			case found && at == 0 && later:
 				fail("C25/later-statement-labelled-index-0", "events of the 2nd+ statement of a non-transactional request are delivered with index 0",
 					"change %s (statement %d of %d, tx=%v) was delivered labelled index %d instead of %d", c.key(), c.Stmt+1, c.NStmt, c.Tx, at, c.Index)
-			case later:
+			case later && indexSeen: // the entry's first group arrived, a later one did not
 				fail("C25/later-statement-never-delivered", "events of the 2nd+ statement of a non-transactional request are never delivered under the request's index",
 					"change %s (statement %d of %d, tx=%v) was never delivered under its index", c.key(), c.Stmt+1, c.NStmt, c.Tx)
 			default:
